@@ -22,7 +22,7 @@ def fresh_result(case):
     code = ('import sys, json; sys.path.insert(0, %r); import enc; '
             'c = enc.undescribe(json.loads(sys.stdin.read())); print(enc.run_impl(c)[0])' % os.path.dirname(os.path.dirname(os.path.abspath(__file__))))
     r = subprocess.run([sys.executable, '-c', code], input=json.dumps(enc.describe(case)), capture_output=True, text=True,
-                       env=dict(os.environ, PYTHONPATH='/repo', PYTHONHASHSEED='0'), timeout=120)
+                       env=dict(os.environ, PYTHONPATH=common.REPO, PYTHONHASHSEED='0'), timeout=120)
     return r.stdout.strip()
 
 
